@@ -47,7 +47,7 @@ def run(pid, tier, replay_file=None):
         payload = json.load(open(replay_file))
         states, info = [payload["state"]], {"replay": replay_file}
     else:
-        states, info = df.stage1(tier, uns=(pid == "C20"))
+        states, info = df.stage1(tier, uns=(pid == "C20"), pid=pid)
     common.use_repo()
     observations = drive.pmap(df.replay_state, states, chunksize=32)
 
